@@ -75,6 +75,9 @@ def check(run):
         from . import C12 as _C12
         b12 = run.borrow("C12", why="patterns (and `|` right anchors) are evaluated on the complete URL, fragment included")
         run.guard("C02.via.C12.7.whole-url", cfg, lambda: _C12.rule_whole_url(b12, F, cfg))
+        b126 = run.borrow("C12", only=r"host-start|host-span|hostname", why="`||host` is compared with the request's hostname: that has to be the host "
+                                    "component of the URL, not the host preceded by its credentials")
+        run.guard("C02.via.C12.6.host-span", cfg, lambda: _C12.rule_host_span(b126, F, cfg))
         run.guard("C02.2.flag-names", cfg, lambda: rule_flags(run, F, cfg))
         run.guard("C02.3.regex-translation", cfg, lambda: rule_translation(run, F, cfg))
         run.guard("C05.4.disjunction", cfg, lambda: C05.rule_disjunction(run, F, cfg))
@@ -88,6 +91,7 @@ def check(run):
         F = run.facts(cfg)
         run.guard("C02.7.host-verbatim", cfg, lambda: rule_host_verbatim(run, F, cfg))
         run.guard("C02.7.host-verbatim", cfg + "/host-part", lambda: rule_host_part(run, F, cfg))
+        run.guard("C02.7.host-verbatim", cfg + "/ascii-host", lambda: rule_ascii_host_verbatim(run, F, cfg))
     for cfg in run.cfgs("A", "D"):
         F = run.facts(cfg)
         b63 = run.borrow("C06", why="a pattern is matched with the regex compiled for ITS OWN text: the cache key has to identify the rule (and be dropped when rules are re-allocated or fused)")
@@ -95,12 +99,15 @@ def check(run):
 
 
 def rule_host_part(run, F, cfg):
-    """Where the host of a `||host...` pattern ends: at the first `/`, `*` or `^` when the pattern has wildcards or
-    separators, at the first `/` otherwise -- a delimiter search, so that every other character the author wrote
-    (`_`, `:`, `%`, non-ASCII letters, ..) stays part of the host. Decided on the prefix slices `pattern[..end]` that
+    """Where the host of a `||host...` pattern ends: at the first `/`, `*`, `^` or `:` (a port belongs to the
+    pattern: `||example.com:8080^` is the host example.com followed by `:8080^`) when the pattern has wildcards or
+    separators, at the first `/` or `:` otherwise -- a DELIMITER search, so that every other character the author
+    wrote (`_`, `%`, non-ASCII letters, ..) stays part of the host --, and the search starts behind a leading
+    bracketed IPv6 literal, whose colons are part of the host. Decided on the prefix slices `pattern[..end]` that
     become the hostname: their `end` must come from exactly these two searches; the separator class is compared with
-    `[/^*]` as an automaton."""
+    `[/^*:]` as an automaton, the non-wildcard search must be a character predicate accepting exactly {/ :}."""
     from analysis.a7 import regex_equivalent
+    from analysis.guards import char_predicate_set, conditional_defs as _cd
     p = F.fn("filters::network::NetworkFilter::parse")
     bodies = [p] + F.closures_of(p.name)
     ends = []
@@ -110,34 +117,96 @@ def rule_host_part(run, F, cfg):
             m = re.match(r"^<std::string::String as std::ops::Index<I>>::index\((.*), std::ops::RangeTo::RangeTo\{end: (.*)\}\)$", e)
             if m and (m.group(1).endswith(".pattern.pattern") or m.group(1) == "up:pattern"):
                 ends.append((g, m.group(2), g.loc(b)))
-    sep_ok = [x for g, x, l in ends if re.match(
-        r"^regex::Match::start\(regex::Regex::find\(static:filters::network::NetworkFilter::parse::SEPARATOR, .*pattern\.pattern\)@Some\.0\)$", x)]
-    # the same search written without a regex: pattern.find(|c| matches!(c, '/' | '^' | '*')) or pattern.find(['/', '^', '*'])
-    from analysis.guards import char_predicate_set
-    for g, x, l in ends:
-        m = re.match(r"^core::str::find\(.*pattern\.pattern, closure\[([^\]]+)\]\(\)\)@Some\.0$", x)
-        if m and m.group(1) in F.fns and char_predicate_set(F.fns[m.group(1)]) == {"/", "^", "*"}:
-            sep_ok.append(x)
-        m = re.match(r"^core::str::find\(.*pattern\.pattern, \[('.', '.', '.')\]\)@Some\.0$", x)
-        if m and set(re.findall(r"'(.)'", m.group(1))) == {"/", "^", "*"}:
-            sep_ok.append(x)
+    ISPAT = r"(\.pattern\.pattern|^up:pattern)$"
+    FROM = r"^filters::network::ipv6_literal_end\(.*pattern\.pattern\)$"
+    # wildcard branch: SEPARATOR.find_at(pattern, ipv6_literal_end(pattern)) -- checked at the call site (deep
+    # renderings elide their leaves); the slice end only has to be that match's start
+    fa = [(b, t) for b, t in p.calls(r"^regex::Regex::find_at$")]
+    fa_ok = len(fa) == 1 and p.expr_operand(fa[0][1]["args"][0]) == "static:filters::network::NetworkFilter::parse::SEPARATOR" \
+        and bool(re.search(ISPAT, p.expr_operand(fa[0][1]["args"][1]))) and bool(re.match(FROM, p.expr_operand(fa[0][1]["args"][2])))
+    sep_ok = [x for g, x, l in ends if fa_ok and "closure[" not in x and re.match(
+        r"^regex::Match::start\(regex::Regex::find_at\(static:filters::network::NetworkFilter::parse::SEPARATOR, .*\)@Some\.0\)$", x)]
+    # the wildcard-free branch: pattern[from..].find(<char predicate>).map(|i| i + from).map(|i| hostname = pattern[..i] ..)
     clo = [(g, x) for g, x, l in ends if re.match(r"^arg:\w+$", x)]
-    # the closure's argument is the position handed over by memchr(b'/', pattern).map(..)
-    maps = [p.expr_call(t) for b, t in p.calls(r"^std::option::Option::map$")]
-    slash_ok = [g for g, x in clo if any(re.match(r"^std::option::Option::map\(memchr::memchr\(47, .*pattern\.pattern\), closure\[" + re.escape(g.name) + r"\]", m_) for m_ in maps)]
+    slash_ok = []
+    pred = shift = None
+    fd = [(b, t) for b, t in p.calls(r"^core::str::find$")]
+    if len(fd) == 1:
+        b0, t0 = fd[0]
+        mh = re.match(r"^<std::string::String as std::ops::Index<I>>::index\((.*), std::ops::RangeFrom::RangeFrom\{start: (.*)\}\)$",
+                      p.expr_operand(t0["args"][0]))
+        mc = re.match(r"^closure\[([^\]]+)\]\(\)$", p.expr_operand(t0["args"][1]))
+        hay_ok = bool(mh) and bool(re.search(ISPAT, mh.group(1))) and bool(re.match(FROM, mh.group(2)))
+        pred = char_predicate_set(F.fns[mc.group(1)]) if mc and mc.group(1) in F.fns else None
+        # follow the position through the two Option::map calls: |i| i + from, then the closure that cuts the host
+        from .C04 import _root_local
+        cur = t0["dest"]["l"]
+        hops = []
+        for _ in range(2):
+            nxt = [(b, t) for b, t in p.calls(r"^std::option::Option::map$") if _root_local(p, t["args"][0]) == cur]
+            if len(nxt) != 1:
+                break
+            mm = re.match(r"^closure\[([^\]]+)\]\((.*)\)$", p.expr_operand(nxt[0][1]["args"][1]))
+            hops.append((mm.group(1) if mm else None, mm.group(2) if mm else ""))
+            cur = nxt[0][1]["dest"]["l"]
+        if hay_ok and pred == {"/", ":"} and len(hops) == 2 and hops[0][0] in F.fns:
+            shift = F.fns[hops[0][0]].expr_local(0)
+            if re.match(r"^\(arg:\w+ AddWithOverflow up:\w+\)\.0$", shift) and re.match(FROM, hops[0][1]):
+                slash_ok = [g for g, x in clo if g.name == hops[1][0]]
     other = [(x[:100], l) for g, x, l in ends if x not in sep_ok and not any(g is g2 for g2 in slash_ok)]
     lit = None
     for n2, c in F.fns.items():
         if n2.startswith("filters::network::NetworkFilter::parse::SEPARATOR::{closure"):
             for b, t in c.calls(r"^regex::Regex::new$"):
                 lit = c.expr_operand(t["args"][0])
-    okx, why = regex_equivalent(lit or '""', '"[/^*]"') if lit is not None or not sep_ok else (True, "no regex: character set {/ ^ *}")
+    okx, why = regex_equivalent(lit or '""', '"[/^*:]"')
     run.ob("C02.7.host-verbatim", "host-part-ends-at-first-delimiter", len(sep_ok) == 1 and len(slash_ok) == 1 and not other and okx,
-           f"the hostname of a `||` rule is pattern[..end] with end = start of the first match of SEPARATOR ~ [/^*] "
-           f"(literal {lit}; {why}) in the wildcard branch and end = memchr(b'/') otherwise; other ends: {other[:2]}",
-           site=other[0][1] if other else p.loc(0), config=cfg,
-           detail="an allow-list of host characters instead of the delimiter search cuts `||ad_server.example.com^` "
-                  "at the underscore: the rule then matches nothing on that host")
+           f"the hostname of a `||` rule is pattern[..end] with end = start of the first match of SEPARATOR ~ [/^*:] "
+           f"(literal {lit}; {why}) in the wildcard branch and end = position of the first character in {{/ :}} otherwise "
+           f"(predicate accepts {sorted(pred) if pred else pred}, offset {shift}), both searched from ipv6_literal_end(pattern); "
+           f"other ends: {other[:2]}", site=other[0][1] if other else p.loc(0), config=cfg,
+           detail="an allow-list of host characters instead of the delimiter search cuts `||ad_server.example.com^` at the "
+                  "underscore; a class without `:` folds the port of `||example.com:8080^` into the host, which no request "
+                  "hostname contains")
+    # ipv6_literal_end: 0 unless the pattern starts with `[`, then one past the first `]`
+    h = F.fns.get("filters::network::ipv6_literal_end")
+    okv = False
+    vals = []
+    if h is not None:
+        run.touched(h)
+        for kind, b, val, conds, _ in _cd(h, 0):
+            br = [v for e, v in conds.items() if re.match(r"^core::str::starts_with\(arg:\w+, '\['\)$", e)]
+            vals.append((val[:90], br[0] if br else None))
+        nz = [(v, c) for v, c in vals if v != "0"]
+        okv = bool(vals) and all(c == 1 for v, c in nz) and all(re.match(
+            r"^std::option::Option::map_or\(memchr::memchr\(93, arg:\w+\), 0, closure\[", v) for v, c in nz) and \
+            any(v == "0" and c == 0 for v, c in vals)
+        inc = [c.expr_local(0) for c in F.closures_of(h.name)]
+        okv = okv and inc == [c_ for c_ in inc if re.match(r"^\(arg:\w+ AddWithOverflow 1\)\.0$", c_)] and len(inc) == 1
+    run.ob("C02.7.host-verbatim", "search-starts-behind-an-ipv6-literal", okv,
+           f"ipv6_literal_end(pattern) is 0 unless the pattern starts with `[`, and then one past its first `]` (or 0 "
+           f"when there is none): {vals}", site=h.loc(0) if h is not None else "", config=cfg)
+
+
+def rule_ascii_host_verbatim(run, F, cfg):
+    """An ASCII hostname of a `||host` rule is kept as written (lower-cased): idna::domain_to_ascii is applied only to
+    hostnames that are not ASCII. (For ASCII input the conversion is the identity EXCEPT that it validates every
+    `xn--` label, so it would reject rules for hosts such as `xn--paypal-login.example`, which the request side
+    accepts as plain ASCII.) Decided on every idna::domain_to_ascii call of NetworkFilter::parse and its closures:
+    it sits on the false side of an is_ascii() test of its own argument."""
+    p = F.fn("filters::network::NetworkFilter::parse")
+    n = 0
+    bad = []
+    for g in [p] + F.closures_of(p.name):
+        for b, t in g.calls(r"^idna::domain_to_ascii$"):
+            n += 1
+            arg = g.expr_operand(t["args"][0])
+            conds = dominating_conditions(g, b)
+            if not any(e == f"core::str::is_ascii({arg})" and v == 0 for e, v in conds.items()):
+                bad.append((arg[:80], g.loc(b)))
+    run.ob("C02.7.host-verbatim", "ascii-host-not-idna-validated", n >= 1 and not bad,
+           f"each of the {n} idna::domain_to_ascii calls in NetworkFilter::parse converts a value only where is_ascii(<that value>) "
+           f"is false; unguarded: {bad}", site=bad[0][1] if bad else p.loc(0), config=cfg)
 
 
 def rule_host_verbatim(run, F, cfg):
@@ -392,12 +461,31 @@ def rule_translation(run, F, cfg):
         st = re.search(r"static:regex_manager::compile_regex::(\w+)", cr.expr_operand(t["args"][0]))
         if st:
             reps[st.group(1)] = cr.expr_operand(t["args"][2])
-    want = {"SPECIAL_RE": '"\\\\$1"', "WILDCARD_RE": '".*"', "ANCHOR_RE": '"(?:[^\\\\w\\\\d\\\\._%-])$1"',
-            "ANCHOR_RE_EOL": '"(?:[^\\\\w\\\\d\\\\._%-]|$)"'}
+    want = {"SPECIAL_RE": '"\\\\$1"', "WILDCARD_RE": '".*"'}
     for k, w in want.items():
         run.ob("C02.3.regex-translation", f"replacement:{k}", reps.get(k) == w,
-               f"{k} is replaced by {reps.get(k)} (expected {w}: '*' -> '.*', '^' -> any character but letter, "
-               f"digit, _ - . %, or end of input when last; metacharacters escaped)", config=cfg)
+               f"{k} is replaced by {reps.get(k)} (expected {w}: '*' -> '.*'; metacharacters escaped)", config=cfg)
+    # '^': one separator character -- "anything but a letter, a digit, or one of _ - . %", where the bytes of non-ASCII
+    # characters count as letters (ABP's own class is ASCII-only; the request tokenizer does not split inside or next to a
+    # non-ASCII letter either, so a rule found by `^` next to one would not be found through its token bucket). Decided on
+    # the automaton of the replacement text: the set of single bytes it accepts.
+    from analysis.a7 import regex_single_bytes
+    ABP_SEPARATORS = frozenset(b for b in range(0x80) if not (chr(b).isalnum() or chr(b) in "_-.%"))
+    for k, tail, empty in (("ANCHOR_RE", "$1", False), ("ANCHOR_RE_EOL", "", True)):
+        lit = reps.get(k) or '""'
+        body = lit[1:-1]
+        shape = body.endswith(tail) and (not empty or body.endswith("|$)"))
+        cls = '"' + (body[:-len(tail)] if tail else body) + '"'
+        got, why = regex_single_bytes(cls)
+        extra = sorted(got - ABP_SEPARATORS)[:6] if got is not None else None
+        missing = sorted(ABP_SEPARATORS - got)[:6] if got is not None else None
+        run.ob("C02.3.regex-translation", f"replacement:{k}", shape and got == ABP_SEPARATORS,
+               f"{k} is replaced by {lit}: one byte out of the {len(ABP_SEPARATORS)} ASCII separators"
+               f"{' or the end of the input' if empty else ' followed by the captured character'} "
+               f"(accepted besides: {[hex(x) for x in extra] if extra is not None else why}; not accepted: "
+               f"{[hex(x) for x in missing] if missing is not None else ''})", config=cfg,
+               detail="a class that accepts bytes >= 0x80 makes `/banner^` match `/bannerñ.gif` when the rule is tested on "
+                      "its own, while the engine never reaches it: the URL's token there is `bannerñ`")
     # the replacements are chained in this order on the same string
     order = [re.search(r"compile_regex::(\w+)", cr.expr_operand(t["args"][0])).group(1) for b, t in cr.calls(r"^regex::Regex::replace_all$")
              if re.search(r"compile_regex::(\w+)", cr.expr_operand(t["args"][0]))]
